@@ -109,6 +109,17 @@ def failing_walks(ctx):
     return out
 
 
+def long_lines(ctx):
+    """positions beyond 16 bits: tapscripts have no size limit, and the position of the last executed OP_CODESEPARATOR (part of the
+    BIP342 digest) counts operations from the start — rewinds at and across the 65535/65536 boundary"""
+    out = []
+    for n in ((65535, 65536) if ctx.tier == "quick" else (255, 256, 65534, 65535, 65536, 65537, 70000)):
+        sc = bytes([0x61]) * n + bytes([0xab, 0x61, 0xab, 0x51])
+        for back in ((1, 2, 3) if ctx.tier != "quick" else ((2,) if n == 65535 else (1, 3))):
+            out.append(session_line(3, R.STD, sc, (), b"", "s" * (n + 2) + "r" * back + "s" * (back + 2), weight=1000))
+    return out
+
+
 def nontrivial(case, impl):
     # a history is non-trivial when at least one rewind was accepted
     m = impl.split(" ")[0]
@@ -118,10 +129,11 @@ def nontrivial(case, impl):
 
 
 def run(ctx):
-    for name, ls in (("history-tree", lines(ctx)), ("random-walks", walks(ctx)), ("failing-walks", failing_walks(ctx))):
+    for name, ls in (("history-tree", lines(ctx)), ("random-walks", walks(ctx)), ("failing-walks", failing_walks(ctx)), ("long-tapscript", long_lines(ctx))):
         impl = ctx.harness_sharded(ls)
         model = ctx.driver_sharded(ls, "model")
-        spec = ctx.driver_sharded(ls, "spec")
+        # (the specification voice replays a fresh session after every command: quadratic in the walk — not on the 65,000-step walks)
+        spec = ctx.driver_sharded(ls, "spec") if name != "long-tapscript" else None
         ctx.compare(name, ls, impl, model, spec, observable=R.canon, nontrivial=nontrivial)
     ctx.exhaustive = True
     ctx.notes.append("history-tree: complete enumeration of all {step,rewind} histories up to depth %d for %d scripts; spec = fresh session advanced by the net number of steps" % (10 if ctx.tier == "quick" else 14, len(family())))
